@@ -21,7 +21,7 @@ ANCHORS = ["hashtable.py::Counter.count", "hashtable.py::Counter.__init__", "rag
            "raggedshape.py::ViewBase.empty_rows_removed", "hashtable.py::HashTable.__getitem__"]
 FLOOR_TAGS = ["init:default", "init:scalar0", "init:scalar", "init:array", "init:array-fractional", "init:array-uint64", "batch:empty", "batch:nokey", "batch:onlykeys", "batch:mixed", "batch:heavy", "batch:collide",
               "batch:wide", "batch:pylist", "batch:run-length-encoded", "batch:othersign", "batch:huge", "keys>=33", "mod:1", "mod:None", "mod:explicit", "state:first-hit-on-scalar0", "state:first-hit-on-scalar", "state:array", "no-hit-call"]
-FLOOR_MONITORS = ["c12:batch", "c12:twin-read-at-end", "c12:twin-one-batch", "c12:twin-resplit", "c12:twin-modulus", "c12:twin-sorted"]
+FLOOR_MONITORS = ["c12:caller-keys", "c12:batch", "c12:twin-read-at-end", "c12:twin-one-batch", "c12:twin-resplit", "c12:twin-modulus", "c12:twin-sorted"]
 FP_STRICT = True       # a floating-point event inside the library that the dense computation does not have is a violation (shard.FpMonitor)
 N_RANDOM = {"quick": 7500, "thorough": 100000}
 
@@ -34,6 +34,8 @@ def make(case, mod, keep=None):
     C = CTX.lib.Counter
     keys, kd, init = case["keys"], case["kdtype"], case["init"]
     ka = c11.karr(keys, kd)
+    if keep is not None and isinstance(ka, np.ndarray):
+        keep.append(("keys", ka))       # the caller keeps (and later reuses) the key array he passed in
     kw = {} if mod is None else {"mod": mod}
     if init == "default":
         return C(ka, **kw)
@@ -120,6 +122,27 @@ def run(case):
                 desc0, short([bb["samples"] for bb in case["batches"][:bi + 1]], 200), short(keys, 100), repr(r) if not r.ok else r.value, e), tags, got=repr(r), expected=e)
     final = [model[k] for k in keys]
     nontrivial = len(keys) >= 2 and hits_so_far >= 1
+    kept_keys = [x[1] for x in kept if isinstance(x, tuple)]
+    kept = [x for x in kept if not isinstance(x, tuple)]
+    if kept_keys and len(keys) >= 1:
+        # the caller's key array is his: it still holds his keys, and refilling it afterwards changes neither the totals nor what later calls count
+        CTX.tick("c12:caller-keys")
+        ka_ = kept_keys[0]
+        if ka_.tolist() != list(keys):
+            return violated("%s: the caller's key array was changed: %s" % (desc0, short(ka_, 120)), tags + ["caller-array-written"])
+        ka_[...] = ka_[::-1].copy() if len(set(keys)) > 1 and ka_[::-1].tolist() != ka_.tolist() else ka_ + ka_.dtype.type(1)
+        r = attempt(totals, cn, case)
+        if not r.ok or r.value != final:
+            return violated("%s: after the caller refilled the key array he had passed in, the counter reads %s for the keys %s, expected %s" % (desc0, repr(r) if not r.ok else r.value, short(keys, 100), final), tags + ["aliases-caller-array"])
+        a = attempt(lambda: cn.count(c11.qarr(list(keys), kd)))
+        r = attempt(totals, cn, case)
+        final = [v + 1 for v in final]
+        for k_ in model:
+            model[k_] += 1
+        if not a.ok or not r.ok or r.value != final:
+            return violated("%s: after the caller refilled the key array he had passed in, counting every key once more gives %s, expected %s" % (desc0, repr(r) if (a.ok and not r.ok) else (repr(a) if not a.ok else r.value), final), tags + ["aliases-caller-array"])
+        allsamples += list(keys)
+        case["batches"].append({"kind": "onlykeys", "samples": list(keys)})
     if kept:
         CTX.tick("c12:caller-array")
         if kept[0].tolist() != list(init):
